@@ -199,9 +199,9 @@ HOOKS = {
 }
 
 
-def render_class(c, defined=None, strip_lazy=False, twin_dialect=None) -> str:
-    """twin_dialect: name of a dialect forced as Config.dialect on classes that
-    enable ADD_DIALECT_SUPPORT (the C13 default-dialect twin)."""
+def render_class(c, defined=None, strip_lazy=False, twin_dialect=None, fam=None) -> str:
+    """twin_dialect: [dialect name, [class names]] — the dialect is forced as
+    Config.dialect on exactly those classes (the C13 default-dialect twin)."""
     if c.get("kind") == "nt":
         lines = [f"class {c['name']}(NamedTuple):"]
         for f in c["fields"]:
@@ -243,10 +243,14 @@ def render_class(c, defined=None, strip_lazy=False, twin_dialect=None) -> str:
             s += f" = field(metadata={meta!r})"
         body.append(s)
     cfg = c.get("cfg")
+    extra = None
+    if twin_dialect and c["name"] in twin_dialect[1]:
+        extra = twin_dialect[0]
+        if cfg is None and fam is not None:
+            # inherit the effective Config explicitly so that the default
+            # dialect can be set on this class alone
+            cfg = {k: v for k, v in fam.cfg(c["name"]).items() if k != "discriminator"}
     if cfg is not None:
-        extra = None
-        if twin_dialect and "ADD_DIALECT_SUPPORT" in (cfg.get("cgo") or []):
-            extra = twin_dialect
         body.extend(render_config(cfg, strip_lazy=strip_lazy, extra_dialect=extra))
     for h in c.get("hooks", []):
         body.extend(HOOKS[h])
@@ -281,7 +285,8 @@ def render_chunk(spec, classes, defined, strip_lazy=False, twin_dialect=None) ->
             defined.add(c["name"])
             continue
         d = None if spec.get("pep563") else defined
-        out.append(render_class(c, d, strip_lazy=strip_lazy, twin_dialect=twin_dialect))
+        out.append(render_class(c, d, strip_lazy=strip_lazy, twin_dialect=twin_dialect,
+                                fam=Fam(spec) if twin_dialect else None))
         defined.add(c["name"])
     return "\n".join(out)
 
@@ -437,6 +442,76 @@ class Fam:
                 stack.append(m)
             stack.extend(self.subclasses(n, defined))
         return seen
+
+    def edges(self, name, tvmap=None):
+        """(class, tvmap) pairs directly nested in `name`'s fields"""
+        out = []
+
+        def walk(t):
+            k = t[0]
+            if k == "tv":
+                if tvmap and t[1] in tvmap:
+                    walk(tvmap[t[1]])
+            elif k == "cls":
+                out.append((t[1], None))
+            elif k == "gen":
+                tv = dict(zip(self.classes[t[1]].get("tvars", []),
+                              [self._subst(x, tvmap) for x in t[2]])) if t[1] in self.classes else None
+                out.append((t[1], tv))
+            elif k in ("opt", "list", "dict", "ann"):
+                walk(t[1])
+            elif k in ("tuple", "union"):
+                for x in t[1:]:
+                    walk(x)
+
+        for f in self.all_fields(name):
+            walk(f["t"])
+        return out
+
+    def _subst(self, t, tvmap):
+        if not tvmap:
+            return t
+        k = t[0]
+        if k == "tv":
+            return tvmap.get(t[1], t)
+        if k in ("opt", "list", "dict"):
+            return [k, self._subst(t[1], tvmap)]
+        if k in ("tuple", "union"):
+            return [k] + [self._subst(x, tvmap) for x in t[1:]]
+        if k == "gen":
+            return ["gen", t[1], [self._subst(x, tvmap) for x in t[2]]]
+        if k == "ann":
+            return ["ann", self._subst(t[1], tvmap), t[2]]
+        return t
+
+    def dialect_closure(self, name):
+        """Classes that receive a call-time dialect given to `name`: those
+        reached through chains in which every class enables dialect support.
+        Returns (set, ambiguous): ambiguous when some class of the set is also
+        reachable through a class without support (a class-level default
+        dialect cannot express that)."""
+        if name not in self.classes or not self.dialect_support(name):
+            return set(), False
+        S, all_reach, via_ns = set(), set(), set()
+        seen = set()
+        stack = [(name, None, True)]
+        while stack:
+            n, tv, chain = stack.pop()
+            key = (n, repr(tv), chain)
+            if key in seen or n not in self.classes or self.classes[n].get("kind") == "nt":
+                continue
+            seen.add(key)
+            sup = self.dialect_support(n)
+            if chain and sup:
+                S.add(n)
+            if not chain:
+                via_ns.add(n)
+            nxt_chain = chain and sup
+            for sub in self.subclasses(n):
+                stack.append((sub, tv, chain))
+            for m, tv2 in self.edges(n, tv):
+                stack.append((m, tv2, nxt_chain))
+        return S, bool(S & via_ns)
 
     def unresolved(self, name, defined):
         """class names referenced (transitively) from `name` but not defined"""
